@@ -6,6 +6,6 @@ D=/verif/seeded/$1; P=$2; T=${3:-quick}
 S=$(mktemp -d /tmp/sc_XXXXXX)
 git -C /repo archive HEAD afkak | tar -x -C $S || exit 3
 (cd $S && patch -p1 -s < "$D/patch.diff") || { echo "patch does not apply"; rm -rf $S; exit 3; }
-cd /verif && AFKAK_SRC=$S timeout 3000 ./check $P --tier $T > /tmp/seed_$1_$P.out 2>&1; rc=$?
+cd /verif && AFKAK_SRC=$S VERIF_OUT=$S/out timeout 3000 ./check $P --tier $T > /tmp/seed_$1_$P.out 2>&1; rc=$?
 rm -rf $S
 echo "seed=$1 prop=$P tier=$T rc=$rc"; grep -A1 "VIOLATION\|INCONCL" /tmp/seed_$1_$P.out | grep "label=\|INCONCL" | cut -c1-220 | sort | uniq | head -${N:-4}
